@@ -10,6 +10,7 @@ is generated and proved by the reflexive checker Base/TrigMat.mcheck_eq_sound
 (invert, +, copy, on_qubits) are covered by the static theorems of
 Proofs/CircuitOps.v plus traced instances.
 """
+STATIC = ["Base/TrigMat"]
 import itertools
 import random
 
